@@ -147,6 +147,9 @@ def check(pid, P, tier, seed):
         base = load_baseline(u)
         pats = [o for o in P.get("obligations", []) if obligation_unit(o) == u]
         want = match_obs(pats, sorted(base["obligations"]))
+        if not base["obligations"] and r.status not in ("lost", "frontend", "tool"):
+            want = match_obs(pats, sorted(r.functions))
+            undecided.append("unit %s has no committed baseline" % u)
         if r.status in ("lost", "frontend", "tool"):
             undecided.append("unit %s: %s: %s" % (u, r.status, r.detail[:1500]))
             for ob in want:
@@ -310,8 +313,12 @@ def check(pid, P, tier, seed):
     return exit_code
 
 
+_replay_seq = [0]
+
+
 def write_replay(pid, ob, v, cex):
-    name = "%s_%s.json" % (pid, "".join(c if c.isalnum() else "_" for c in ob))
+    _replay_seq[0] += 1
+    name = "%s_%s_%d.json" % (pid, "".join(c if c.isalnum() else "_" for c in ob), _replay_seq[0])
     path = os.path.join(REPLAYS, name)
     doc = {"property": pid, "obligation": ob, "native": cex}
     if v is not None:
